@@ -203,6 +203,122 @@ Proof.
   exact (from_local_values_instants zone cz local m Hl Hm Hc Hoffs).
 Qed.
 
+(** * Local.from_utc_datetime at value level, and the round trip instant -> wall clock -> instant *)
+Theorem from_utc_values zone utc lt :
+  P4.ndt_ok utc -> find_local_time_type zone (wsecs utc) = Val (Ok lt) ->
+  (off_ok (ut_offset lt) ->
+   from_utc_datetime zone utc = Val (DateTime.mk_dtz utc (ut_offset lt)) /\
+   P4.dtz_ok (DateTime.mk_dtz utc (ut_offset lt))) /\
+  (~ off_ok (ut_offset lt) -> from_utc_datetime zone utc = Panic).
+Proof.
+  intros Hu Hl. rewrite (glue_utc zone utc (wsecs utc) (ts_wall utc Hu)), Hl. unfold off_ok.
+  split; intros Ho.
+  - replace ((-86400 <? ut_offset lt) && (ut_offset lt <? 86400)) with true by lia.
+    split; [reflexivity|]. split; [exact Hu|exact Ho].
+  - replace ((-86400 <? ut_offset lt) && (ut_offset lt <? 86400)) with false by lia. reflexivity.
+Qed.
+
+(* instant -> date-time -> its wall clock -> date-times: the original value is among them *)
+Theorem roundtrip_values zone utc lt m :
+  P4.ndt_ok utc -> let t := wsecs utc in let o := ut_offset lt in let l := t + o in
+  find_local_time_type zone t = Val (Ok lt) -> off_ok o -> supported l = true ->
+  find_local_time_type_from_local zone (utc_year l) l = Val (Ok m) -> contains m o ->
+  (forall o', contains m o' -> off_ok o') ->
+  forallb supported (cand_instants l m) = true ->
+  exists v w r, from_utc_datetime zone utc = Val v /\ DateTime.dz_utc v = utc /\ DateTime.dz_off v = o /\
+                DateTime.naive_local v = Val w /\ P4.ndt_ok w /\ wsecs w = l /\
+                from_local_datetime zone w = Val r /\ In v (mlt_list r).
+Proof.
+  intros Hu t o l Hl Ho Hsup Hm Hc Hoffs Hall.
+  destruct (proj1 (from_utc_values zone utc lt Hu Hl) Ho) as [Hv Hvok]. fold o in Hv, Hvok.
+  set (v := DateTime.mk_dtz utc o) in *.
+  pose proof (P4D.naive_local_panics_iff v Hvok) as Hn.
+  assert (Hw : P4.wall v = l + EPOCH_DN * 86400).
+  { unfold P4.wall, v, l, t, wsecs. cbn [DateTime.dz_utc DateTime.dz_off]. lia. }
+  unfold supported in Hsup. rewrite Hw, Hsup in Hn. destruct Hn as (w & Hnl & Hwok & Hwu & Hwf).
+  assert (Hwl : wsecs w = l) by (unfold wsecs; lia).
+  rewrite <- Hwl in Hm, Hall.
+  destruct (from_local_values zone w m Hwok Hm Hoffs) as (r & Hr & H). rewrite Hall in H.
+  destruct H as (H1 & H2 & H3).
+  exists v, w, r. repeat (split; [assumption || reflexivity|]).
+  (* the candidate with offset o is v itself *)
+  assert (Hsame : forall v', value_at w o v' -> v' = v).
+  { intros v' (K1 & K2 & K3 & K4 & _). destruct v' as [u' o']. cbn [DateTime.dz_utc DateTime.dz_off] in *.
+    subst o'. unfold v. f_equal. destruct K1 as [K1 _]. cbn [DateTime.dz_utc] in K1.
+    apply (P4.ndt_wide_inj P4D.HD); [apply P4.ndt_ok_wide; exact K1|apply P4.ndt_ok_wide; exact Hu| |].
+    - unfold dz_unix, wsecs in K3. cbn [DateTime.dz_utc] in K3. unfold l, t, wsecs in Hwl. unfold wsecs in Hwl. lia.
+    - rewrite K4. exact Hwf. }
+  destruct m as [|x|x y]; cbn [contains mlt_map mlt_list] in Hc, H3.
+  - contradiction.
+  - destruct r as [|a|a b]; cbn [mlt_list map] in H3, H2 |- *; try discriminate.
+    injection H3 as H3. inversion H2 as [|? ? Ha _]; subst. left.
+    apply Hsame. rewrite H3, Hc in Ha. exact Ha.
+  - destruct r as [|a|a b]; cbn [mlt_list map] in H3, H2 |- *; try discriminate.
+    injection H3 as H3a H3b. inversion H2 as [|? ? Ha H2']; subst. inversion H2' as [|? ? Hb _]; subst.
+    destruct Hc as [Hc|Hc].
+    + left. apply Hsame. rewrite H3a, Hc in Ha. exact Ha.
+    + right. left. apply Hsame. rewrite H3b, Hc in Hb. exact Hb.
+Qed.
+
+(* end to end on a composite zone, for every supported instant whose wall reading is supported and
+   not an excepted second *)
+Theorem roundtrip_values_composite zone ps first a tl pv ol utc :
+  let r := conv_rule a in
+  let cz := mk_szone (ut_offset first) (offs ps) (Some (inr r)) in
+  let t := wsecs utc in
+  P4.ndt_ok utc ->
+  table_zone zone ps first -> leap_seconds zone = [] -> extra_rule zone = Some (Alternate a) ->
+  alt_ok a -> r_std r <> r_dst r ->
+  increasing (offs ps) = true -> spacing_table (offs ps) (ut_offset first) = true ->
+  zlen (transitions zone) < 4611686018427387904 ->
+  last_window (offs ps) (ut_offset first) = Some (tl, pv, ol) ->
+  footer_continues cz = true -> rule_year_hyps r (footer_year cz) ->
+  (tl <= t -> rule_hyps a t) ->
+  (forall o, In o (zone_offsets cz) -> off_ok o) ->
+  forall o, zone_off cz t = Some o -> let l := t + o in
+  (footer_hi cz < l -> rule_reading_hyps a l) ->
+  excepted_wall cz l = false ->
+  supported l = true -> forallb supported (instants_of_wall cz l) = true ->
+  exists v w res, from_utc_datetime zone utc = Val v /\ DateTime.dz_utc v = utc /\ DateTime.dz_off v = o /\
+                  DateTime.naive_local v = Val w /\ P4.ndt_ok w /\ wsecs w = l /\
+                  from_local_datetime zone w = Val res /\ In v (mlt_list res) /\
+                  map dz_unix (mlt_list res) = instants_of_wall cz l.
+Proof.
+  intros r cz t Hu Hz Hleap Hr Ha Hne Hinc Hsp Hlen Hlw Hfc Hfy Hrule Hoffs o Ho l Hrl Hex Hsup Hall.
+  assert (Hfy' : rule_year_hyps r (utc_year (tl + ol))).
+  { unfold footer_year, cz in Hfy. cbn [z_trans z_first] in Hfy. rewrite Hlw in Hfy. exact Hfy. }
+  destruct (footer_facts _ _ _ _ _ _ Hlw Hfc Hfy') as (Hc1 & _).
+  destruct (offset_at_composite zone ps first a tl pv ol t Hz Hleap Hr Hinc Hlen Hlw Hc1 Hrule) as (lt & Hlt & Hzo).
+  fold r cz in Hzo. rewrite Ho in Hzo. injection Hzo as Hzo.
+  destruct (composite_classification zone ps first a l Hz Hr Ha Hne Hinc Hsp Hfc Hfy Hrl Hex) as (m & Hm & Hcl).
+  change (classified cz l m) in Hcl.
+  pose proof (classified_list cz l m Hcl) as HS.
+  assert (Hin : In t (instants_of_wall cz l)).
+  { apply instants_of_wall_spec. unfold l. replace (t + o - t) with o by lia. split; [exact Ho|].
+    unfold cz in Ho. rewrite (zone_off_composite _ _ _ _ _ _ t Hinc Hlw Hc1) in Ho. injection Ho as <-.
+    destruct (t <? tl); [apply table_off_in_composite|apply roff_in_offsets]. }
+  assert (Hcont : contains m o).
+  { rewrite HS in Hin. destruct m as [|x|x y]; cbn [cand_instants contains] in *.
+    - contradiction.
+    - destruct Hin as [Hin|[]]. unfold l in Hin. lia.
+    - destruct Hin as [Hin|[Hin|[]]]; unfold l in Hin; [left|right]; lia. }
+  assert (Hoff : forall o', contains m o' -> off_ok o').
+  { intros o' Ho'. apply Hoffs.
+    assert (Hin' : In (l - o') (instants_of_wall cz l)).
+    { rewrite HS. destruct m as [|x|x y]; cbn [contains cand_instants] in *; [contradiction| |].
+      - left. congruence.
+      - destruct Ho' as [<-|<-]; [left|right; left]; reflexivity. }
+    apply instants_of_wall_spec in Hin'. replace (l - (l - o')) with o' in Hin' by lia. apply Hin'. }
+  rewrite HS in Hall. subst o.
+  destruct (roundtrip_values zone utc lt m Hu Hlt (Hoff _ Hcont) Hsup Hm Hcont Hoff Hall)
+    as (v & w & res & H1 & H2 & H3 & H4 & H5 & H6 & H7 & H8).
+  exists v, w, res. repeat (split; [assumption|]).
+  (* the instants of the result *)
+  fold t l in H6. rewrite <- H6 in Hm, Hall.
+  destruct (from_local_values zone w m H5 Hm Hoff) as (res' & Hres & Hlist). rewrite Hall in Hlist.
+  rewrite H7 in Hres. injection Hres as <-. rewrite HS, <- H6. apply Hlist.
+Qed.
+
 (** the hypotheses are inhabited: 2024-10-27T02:30:00 in the Berlin-like composite zone of
     Proofs/C05Composite.v *)
 Definition exg_local : DateTime.ndt :=
@@ -226,4 +342,32 @@ Proof.
   split; [exact exg_ok|]. split; [vm_compute; reflexivity|]. split.
   - intros o Ho. vm_compute in Ho. unfold off_ok. intuition lia.
   - split; [vm_compute; reflexivity|]. vm_compute. repeat split; reflexivity.
+Qed.
+
+(* the round trip's hypotheses are inhabited: 2024-10-27T00:30:00Z in the same zone is 02:30:00+02:00,
+   the first of the two date-times that read 02:30:00 *)
+Definition exg_utc : DateTime.ndt :=
+  match DateTime.dt_from_timestamp 1729989000 0 with Val (Some n) => n | _ => DateTime.mk_ndt 0 (Time.mk_time 0 0) end.
+Lemma exg_roundtrip :
+  P4.ndt_ok exg_utc /\ wsecs exg_utc = 1729989000 /\ leap_seconds exc_zone = [] /\
+  zlen (transitions exc_zone) < 4611686018427387904 /\
+  last_window (offs ex_ps) (ut_offset ex_cet) = Some (1698541200, 7200, 3600) /\
+  rule_hyps exc_rule 1729989000 /\
+  zone_off exc_cz 1729989000 = Some 7200 /\ supported (1729989000 + 7200) = true /\
+  match from_utc_datetime exc_zone exg_utc with
+  | Val v => DateTime.naive_local v = Val exg_local /\
+             match from_local_datetime exc_zone exg_local with
+             | Val (MAmbiguous x y) => x = v /\ dz_unix y = 1729992600
+             | _ => False
+             end
+  | _ => False
+  end.
+Proof.
+  split.
+  - split; [exists 2024, 301; vm_compute; repeat split; reflexivity|vm_compute; repeat split; discriminate].
+  - split; [vm_compute; reflexivity|]. split; [reflexivity|]. split; [vm_compute; reflexivity|].
+    split; [vm_compute; reflexivity|]. split.
+    + split; [exact exc_alt_ok|]. vm_compute.
+      repeat match goal with |- _ /\ _ => split end; try reflexivity; discriminate.
+    + vm_compute. repeat match goal with |- _ /\ _ => split end; reflexivity.
 Qed.
